@@ -59,6 +59,12 @@ def _cases(tier):
         for c in six[::2]:
             for cname in ("number_2", "number_3", "percent_75"):
                 yield {"space": "C", "first": [a, b], "second": [c], "cmp": cname}
+    # the same two-call histories with the first two models reached through ONE field (an object in one sample, a list of objects in
+    # another): after the first merge two live pointers of that field target the merged model
+    for a, b in itertools.combinations(six[::2] if tier == "quick" else six, 2):
+        for c in (six[::3] if tier == "quick" else six[::2]):
+            for cname in ("number_2", "number_3", "percent_75", "percent_50"):
+                yield {"space": "C", "first": [a, b], "second": [c], "cmp": cname, "wrap": "obj_or_list"}
     # families with repeated key sets: identical key sets are similar only if a configured comparator says so
     for ks in KEYSETS:
         for cname in CMPSETS:
@@ -247,6 +253,10 @@ def _execute_two_calls(case):
     viol = []
     docs = [[{f"m{i}": {k: 1 for k in ks} for i, ks in enumerate(case["first"])}],
             [{f"n{i}": {k: 1 for k in ks} for i, ks in enumerate(case["second"])}]]
+    if case.get("wrap") == "obj_or_list":
+        a, b = case["first"][:2]
+        docs[0] = [{"x": {k: 1 for k in a}}, {"x": [{k: 1 for k in b}]}]
+        tokens = tokens + ["wrap:obj_or_list"]
     summary = []
     for call, doc in enumerate(docs):
         if doc[0]:
